@@ -10,4 +10,4 @@ def run(ck):
     if "C18" == "C18":
         ob2, _ = pubb.analyse(ck)
         ob2.emit(ck, "C18")
-    ck.floor("INV", "loaders/obligations", len([1 for it in ob.items if "C18" in it[0]]), 5, "C18 obligations evaluated")
+    ck.floor("INV", "loaders/obligations", len([1 for it in ob.items if "C18" in it[0]]), 4, "C18 obligations evaluated")
